@@ -32,8 +32,8 @@ const STALL_ZERO_NS: u64 = 4855 * S;
 ///    been seen since the last restart, at a query >= 4615 s after the last accepted sample.
 ///  * `nan-at-backwards-seek-instant`: per_sec() is NaN at a query whose clock reading equals the
 ///    instant of a recorded backwards seek that lies strictly after creation / the last reset*.
-const REPORT_UNDERFLOW_FINDING: bool = false;
-const REPORT_REWIND_NAN_FINDING: bool = false;
+const REPORT_UNDERFLOW_FINDING: bool = true;
+const REPORT_REWIND_NAN_FINDING: bool = true;
 
 #[derive(Clone, Debug, PartialEq)]
 enum Op {
